@@ -395,12 +395,13 @@ static Verdict run_case(const TCase &cin) {
     pixman_image_unref(scratch);
   }
   size_t T = c.th.size();
-  std::vector<std::string> alone(T);
-  for (size_t i = 0; i < T; i++) alone[i] = run_program(c, c.th[i], pool);
-
   int reps = ctx().replay.empty() ? 3 : 60;
   if (const char *e = getenv("VF_REPS")) reps = std::max(1, atoi(e)) * (ctx().replay.empty() ? 1 : 20);
-  for (int rep = 0; rep < reps && v.ok; rep++) {
+  // The threads run first and the single-threaded reference afterwards: whatever the library initialises or caches lazily
+  // on first use (per operator, per format, per implementation) is then first touched by concurrent threads, as it would
+  // be in an application whose worker threads do all the drawing (seeded C16c).
+  std::vector<std::vector<std::string>> all_got;
+  for (int rep = 0; rep < reps; rep++) {
     std::vector<std::string> got(T);
     pthread_barrier_t bar;
     pthread_barrier_init(&bar, nullptr, (unsigned)T);
@@ -412,12 +413,16 @@ static Verdict run_case(const TCase &cin) {
       });
     for (auto &t : ths) t.join();
     pthread_barrier_destroy(&bar);
+    all_got.push_back(got);
+  }
+  std::vector<std::string> alone(T);
+  for (size_t i = 0; i < T; i++) alone[i] = run_program(c, c.th[i], pool);
+  for (int rep = 0; rep < reps && v.ok; rep++)
     for (size_t i = 0; i < T; i++)
-      if (got[i] != alone[i]) {
-        v.fail(fmt("thread %d of %d (repetition %d): result %s differs from the same program run alone %s", (int)i, (int)T, rep, got[i].c_str(), alone[i].c_str()));
+      if (all_got[(size_t)rep][i] != alone[i]) {
+        v.fail(fmt("thread %d of %d (repetition %d): result %s differs from the same program run alone %s", (int)i, (int)T, rep, all_got[(size_t)rep][i].c_str(), alone[i].c_str()));
         break;
       }
-  }
   pixman_region32_fini(&pool.region);
   pixman_region_fini(&pool.region16);
 
